@@ -2,17 +2,24 @@
 (* Model-checking instance of RpcRead: the transaction table (an operator constant a .cfg cannot
    express).  Transaction ids are 10*height + kind digit:
      1 INVOKE v3   2 L1_HANDLER   3 INVOKE v1 with a REVERTED receipt   4 DEPLOY_ACCOUNT
-     5 DECLARE     6 DEPLOY (legacy)
-   Variant 0 of every height carries <<invoke, l1 handler, reverted invoke>>; variant 1 shares the
-   L1 handler with variant 0 of the same height but at ANOTHER index (so a reorg re-indexes a
-   transaction hash that both forks contain), has an empty block at height 2 and the remaining
-   kinds elsewhere. *)
+     5 DECLARE     6 DEPLOY (legacy)   7 a second L1_HANDLER
+   Variant 0 of every height carries <<invoke, l1 handler, reverted invoke>>.  Variant 1 is chosen
+   so that a reorg at each height exercises a different relation between the dropped and the new
+   block's transactions (what the tx-hash index must survive):
+     height 0  DISJOINT sets of EQUAL length <<l1 handler', deploy account, declare>>: whichever
+               variant is reverted, every index of the dropped block is occupied by a different
+               transaction of the fork block (a stale tx-hash entry would answer with THAT one);
+     height 1  SHARES the L1 handler with variant 0 but at ANOTHER index (the hash must be
+               re-indexed, not dropped);
+     height 2  the EMPTY block (a stale entry points at nothing);
+     height 3  DISJOINT and LONGER <<deploy, l1 handler', deploy account, declare>>: every kind
+               sits in a slot that variant 0 occupied. *)
 EXTENDS RpcRead
 
 MCTxs(n, v) ==
   IF v = 0 THEN <<10 * n + 1, 10 * n + 2, 10 * n + 3>>
-  ELSE CASE n = 0 -> <<2, 4>>
+  ELSE CASE n = 0 -> <<7, 4, 5>>
          [] n = 1 -> <<12, 14, 15>>
          [] n = 2 -> <<>>
-         [] OTHER -> <<10 * n + 6, 10 * n + 2>>
+         [] OTHER -> <<10 * n + 6, 10 * n + 7, 10 * n + 4, 10 * n + 5>>
 =============================================================================
